@@ -55,6 +55,8 @@ PROPS = {
             "rule": "every datagram parsed through the real UDP parse loop in a clean and in a dirty 64 KiB buffer (cut / over- / under-declared datagrams), plus exhaustive and random Alloc/Free histories on the real pool; non-trivial = datagram accepted; distinct by op line"},
     "C08": {"lean": ["C08"], "streams": [{"name": "hostile", "gen": "hostile"}],
             "rule": "mutations of valid requests/responses and hostile field values (absurd Content-Length, bracket-only hosts, thousands of headers/parameters, truncations, garbage): accept/reject compared with the model, robustness oracle (no panic, bounded allocation) on parse and on the whole pipeline, liveness probes after hostile input; non-trivial = input accepted by the parser; distinct by op line"},
+    "C09": {"lean": ["C09"], "expected": ["Wiring"], "streams": [{"name": "race", "gen": "race", "race": True, "timeout": 900}],
+            "rule": "stress runs of several real Proxy loops of one service fed concurrently with membership changes, pool, transport table and resolver traffic under the Go race detector, GOMAXPROCS varied; every request must reach exactly one backend; non-trivial = run under load (>= 100 requests); distinct by (listeners, seed, GOMAXPROCS)"},
     "C14": {
         "lean": ["C14"], "expected": ["Tables"],
         "streams": [STD, {"name": "codec", "gen": "codec"}],
@@ -84,6 +86,8 @@ def replay_context(f, rundir):
     """ops needed to replay a failure: stateless streams need only the failing line; stateful
     streams need everything since the last reset op (cfg / new)."""
     stream = f["stream"]
+    if f["op"].startswith("race "):
+        return "// race detector report\n// " + f["impl"].replace("\n", "\n// ")
     ops = os.path.join(rundir, stream + ".ops")
     lines = open(ops).read().split("\n")
     i = f["line"] - 1
